@@ -359,7 +359,7 @@ def run_replays(pid, known):
     if A.REPO != "/repo":
         return {}, "", "replays skipped: the replay crate depends on /repo by path and VERIF_REPO points elsewhere"
     cmd = ["cargo", "test", "--offline", "--manifest-path", os.path.join(ROOT, "replay", "Cargo.toml"),
-           "--test", "findings", "--test", "frontends", "--test", "c19", "--test", "c18", "--test", "c11", "--test", "c12", "--test", "c14", "--test", "c08", "--test", "c14d", "--test", "c13", "--"] + names + ["--test-threads", "2"]
+           "--test", "findings", "--test", "frontends", "--test", "c19", "--test", "c18", "--test", "c11", "--test", "c12", "--test", "c14", "--test", "c08", "--test", "c14d", "--test", "c13", "--test", "c19b", "--test", "c07b", "--"] + names + ["--test-threads", "2"]
     env = dict(os.environ, CARGO_NET_OFFLINE="true")
     try:
         pr = subprocess.run(cmd, capture_output=True, text=True, timeout=1500, env=env)
